@@ -407,6 +407,33 @@ def gen_scenarios(rng):
         ops.append({"op": "manage", "now": now, "kind": "requeue_dead", "ids": ["d0", "d%d" % (n - 1)]})
         ops.append({"op": "stats", "now": now})
         hs.append({"cfg": cfg, "ops": ops, "snap_every": 1, "c13_ok": True})
+    # S7: the DLQ is over its depth cap while OLDER messages are still alive (queued on another route, or leased): the trim removes dead
+    #     messages only
+    for k in range(2):
+        depth = rng.choice([1, 2])
+        cfg = _cfg0(prune_iv=rng.choice([SEC, 5 * SEC]), dlq_depth=depth, dlq_age=(0 if k == 0 else 3600 * SEC))
+        now = BASE + rng.randrange(1000) * SEC
+        ops = [{"op": "enqueue", "now": now, "enq": [_enq("old-q", route="r1", body=80)]},
+               {"op": "enqueue", "now": now + 1, "enq": [_enq("old-l", route="r2", body=81)]}]
+        now += SEC
+        ops.append({"op": "dequeue", "now": now, "route": "r2", "target": "", "batch": 1, "ttl": 3600 * SEC})      # old-l stays leased
+        n = depth + rng.choice([1, 2, 3])
+        for i in range(n):
+            now += SEC
+            ops.append({"op": "enqueue", "now": now, "enq": [_enq("x%d" % i, body=82 + i)]})
+        now += SEC
+        ops.append({"op": "dequeue", "now": now, "route": "r0", "target": "", "batch": n, "ttl": 3600 * SEC})
+        d0 = len(ops) - 1
+        for i in range(n):
+            now += SEC
+            ops.append({"op": "lease", "now": now, "kind": "dead", "dur": 0, "reason": "boom", "lease": {"ref": [d0, i]}})
+        for _k in range(3):
+            now += rng.choice([5 * SEC, 7 * SEC])
+            ops.append({"op": rng.choice(["stats", "dequeue", "enqueue"]), "now": now, "route": "r9", "target": "", "batch": 1, "ttl": SEC,
+                        "enq": [_enq("late%d" % _k, route="r3", body=90 + _k)],
+                        "filt": {"route": "", "target": "", "state": "", "limit": 0, "before": None, "preview": False, "order": ""}})
+        ops.append({"op": "stats", "now": now})
+        hs.append({"cfg": cfg, "ops": ops, "snap_every": 1, "c13_ok": True})
     # S6: a full queue refuses an enqueue, then the queued messages age out of retention: the very next enqueue (no other call in
     #     between) prunes first and must be admitted; same with a batch, and under drop_oldest (nothing may be evicted then)
     for k in range(3):
